@@ -170,6 +170,9 @@ class Check:
         for i, f in enumerate(["data_manipulation.yaml", "uc7_config.yaml", "uc7_config_tap003.yaml"]):
             specs.append({"name": f"shipped-{f}", "src": ["shipped", f], "policy": pols[i], "seed": seed * 100 + i, "episodes": 1 if q else 2,
                           "steps": 30 if q else 200, "max_len": 30 if q else None, "force_mask": True})
+        for i, pol in enumerate(["collide", "power", "adversarial"] if q else ["collide", "power", "adversarial"] * 4):
+            specs.append({"name": f"uc2-fullmap-{pol}-{i}", "src": ["fullmap", {"file": "data_manipulation.yaml", "seed": seed * 10 + i}], "policy": pol,
+                          "seed": seed * 100 + 20 + i, "episodes": 1 if q else 2, "steps": 60 if q else 128, "max_len": 60 if q else None, "force_mask": True})
         for s in range(64 if q else 320):
             sd = seed * 1000 + s
             specs.append({"name": f"gen-{sd}", "src": ["gen", {"seed": sd, "knobs": {"masking": True, "defender_position": "first" if s % 2 else "last"}}],
